@@ -4,6 +4,7 @@ mod engine;
 mod explore;
 mod gen;
 mod jobs;
+mod opseq;
 mod props;
 mod tiktoken_data;
 mod vocab;
